@@ -233,6 +233,15 @@ def machine_run(cmds, stacks, max_steps, stdin=""):
 
 def cases_for(op, seed):
     """yield (line, expected, pretty input)"""
+    if op == "stdin.cat":
+        texts = ["", "a", "ab\ncd", "ab\ncd\n", "\n\nx", "é가\U0001F496\n\U0010FFFF", "\x00\x7f\u0080\u07ff\u0800\ud7ff\ue000\uffff\U00010000", "x" * 300 + "\ny"]
+        for t in texts:
+            k = len(t) + 3
+            # reading is line by line: after each line is exhausted the next is read; an EMPTY buffer after the last
+            # line yields NaN (end of input)
+            exp = [str(ord(ch)) for ch in t] + ["NaN"] * 3
+            yield ("stdin.cat\t%s\t%d" % (t.encode("utf-8").hex(), k), " ".join(exp), {"op": "pop stack 0 repeatedly (real stdin)", "stdin": t, "pops": k})
+        return
     if op == "opt.cmp":
         # straight-line programs (no hearts, so they terminate) whose results are printed through stack 1;
         # oracle: the unoptimised run of the same program (property C02)
@@ -442,7 +451,7 @@ OPS = {
     "calc": ["area.calc"], "Area::new": ["area.calc"],
     "opt_execute": ["opt.cmp"], "calc_on_state_opt": ["opt.cmp"],
     "execute_one": ["exec.steps"], "calc_on_state": ["exec.steps", "area.calc"], "push_stack_wrap": ["exec.steps"],
-    "pop_stack_wrap": ["exec.steps"], "State::push_stack": ["exec.steps"], "State::pop_stack": ["exec.steps"],
+    "pop_stack_wrap": ["exec.steps", "stdin.cat"], "ReadLine_for_std::io::Stdin::read_line_": ["stdin.cat"], "io_read_line_from": ["stdin.cat"], "State::push_stack": ["exec.steps"], "State::pop_stack": ["exec.steps"],
     "trait_State::push_stack": ["exec.steps"], "trait_State::pop_stack": ["exec.steps"], "ext_num_to_unicode": [],
     "BigNum::to_string_base": ["big.to_base", "big.roundtrip"], "BigNum::from_string_base": ["big.from_base", "big.roundtrip"],
     "BigNum::from_string": ["big.from_string", "big.from_base"], "Num::from_string": ["num.roundtrip"],
@@ -456,7 +465,7 @@ PROP_OPS = {
     "C07": ["num.cmp", "area.calc", "big.eq", "big.cmp"],
     "C09": ["big.roundtrip", "big.to_base", "big.from_base", "big.from_string", "num.roundtrip"],
     "C01": ["exec.steps", "area.calc", "num.cmp"],
-    "C02": ["opt.cmp"], "C10": [], "C14": ["exec.steps"],
+    "C02": ["opt.cmp"], "C10": [], "C14": ["stdin.cat", "exec.steps"],
 }
 
 
